@@ -93,6 +93,48 @@ CHECKS = {
             "requests must be answered in order. Environment answers: randint 0 / duplicate, conn.send raising.",
             "<= 2 open connections per session; contexts from 4 values; sequence length bound.",
             "DESIGN.md §3 C06"),
+    "C01": ("exploration",
+            "four-way differential of cpppo parse/produce against an independent struct-only reference codec (mc/refcip.py) over a "
+            "grammar catalogue x boundary alphabets x deviation-bounded composites",
+            "About 45 grammar elements (20 scalar types, strings, IFACEADDRS, status, typed data x 14 types, EPATH in four forms with every "
+            "sequence of <= 3 (4) segments over a 34-segment alphabet, all request/reply templates of the Object, Message Router, Logix "
+            "and Connection Manager services, bundles of 1..3, CPF of 0..3 items over 8 kinds, every encapsulation command, the "
+            "Unconnected Send wrapper and its error reply, small/large Forward Open NCP bit fields, composite frames with <= 1 (2) "
+            "fields off nominal) x per-field boundary alphabets. Oracle, all four must agree: cpppo produce == reference encode; "
+            "cpppo parse recovers every field; cpppo produce(parse(bytes)) == bytes for canonical bytes; reference decode == value; "
+            "out-of-range values must be refused by produce.",
+            "Field combinations beyond d=2 and containers above the size bounds are not enumerated; shapes cpppo documents as "
+            "unsupported (extended status with status 0, empty STRUCT data, bare 0x52 Read Tag Fragmented, 16-byte service name) are "
+            "outside the grammar and listed as evidence notes. mc/refcip.py (self-tested against 77 captured packets) is trusted.",
+            "DESIGN.md §3 C01"),
+    "C08": ("fault_enumeration",
+            "complete one-edit (two-field-edit) neighbourhood of every kind of valid frame + all very short inputs + boundary headers, "
+            "placed in sessions of the real server loop run through network.server_thread.run; deterministic step counting",
+            "Every hostile input of the enumerated neighbourhood (every byte x substitution alphabet, every deletion, insertion, "
+            "truncation, every length/count/offset/size field of the reference codec's field map x {0,1,true-1,true+1,2*true,max}; "
+            "thorough: all pairs of field edits; all inputs of length <= 2; headers over boundary commands and lengths) is delivered "
+            "to the real enip_srv_tcp loop after Register / after Forward Open / between writes, followed by a valid frame and EOF. "
+            "Oracle: the server thread's Python-call count stays within K*(bytes+c) (K = 4 x worst per-byte cost on valid traffic; a "
+            "hard cap turns a livelock into a reported hang), nothing escapes the connection runner, the connection is closed, the "
+            "store is unchanged unless explained by a complete well-formed write carried in the delivered bytes, and a parked older "
+            "session and a new session read and write correctly afterwards.",
+            "Long random strings are not part of the deciding run (that would be sampling). A lenient reading of 'well-formed write' "
+            "is used: the simulator may ignore sloppy wrapping around a complete CIP write request.",
+            "DESIGN.md §3 C08"),
+    "C09": ("model_checking",
+            "stateless schedule exploration of real server threads under a baton scheduler: every library lock replaced by a cooperative "
+            "lock, sys.monitoring line events on the watched request-path functions, iterative preemption bounding (DFS over choice "
+            "sequences), brute-force linearizability oracle",
+            "2-3 real threads, each a session issuing 1-2 requests (plain and bundled reads/writes colliding on one tag, plus private "
+            "elements) against the real simulator at the Connection_Manager.request seam and through whole frames (logix.process incl. "
+            "Register). Scheduling points: every operation on any lock cpppo owns (each dfa_base.lock found through gc, class-level "
+            "parser locks, UCMM.lock, setup.lock), request boundaries and, at granularity G1, every source line of the watched "
+            "functions that touches possibly shared data (anchor list + AST scan). All schedules with <= 2 (thorough 3) preemptions "
+            "are executed; each execution must raise nothing, give every session exactly its own replies, and be explained by some "
+            "total order of all requests (bundle members individually) on a list model, final store included.",
+            "<= 3 sessions, <= 2 requests each; preemption bounds as stated per program; C-level list slice operations are atomic "
+            "under the GIL; completeness of the AST-derived watch-set is assumed (no Python race detector is available).",
+            "DESIGN.md §3 C09"),
     "C10": ("exploration",
             "bounded-exhaustive enumeration of parser machines x sentences x every limit value/form x tails x chunkings, repeat counts, and "
             "iterator operation sequences on the real automata; safety + equality-with-unlimited-parse oracle over an instrumented source",
